@@ -82,6 +82,12 @@ pub enum Op {
     PeekMut { hi: bool, payload: u8 },
     /// handled by the explorer (changes the kind of the state)
     Convert,
+    /// Consuming API on a CLONE (the state is unchanged): how 0 = into_sorted_iter driven by `front`
+    /// calls of next, `back` of next_back, then next until None, every call under its own
+    /// catch_unwind so that the iterator is used again after a caught panic; 1 = the descending
+    /// sorted vector; 2 = the ascending one (DoublePriorityQueue); 3 = into_iter; 4 = into_vec;
+    /// 5 = conversion to the other kind and a drain of it
+    Consume { how: u8, front: u32, back: u32 },
 }
 
 #[derive(Clone, Debug, PartialEq, Eq, Serialize, Deserialize)]
@@ -796,6 +802,92 @@ pub fn step<Q: QueueLike>(q: &mut Q, op: &Op, m: &mut Model, unordered: &mut boo
             Ok(Ret::OptPair(r))
         }
         Op::Convert => unreachable!("Convert is handled by the explorer"),
+        Op::Consume { how, front, back } => {
+            let n = m.len();
+            let c = q.clone();
+            let mut caught = 0u32;
+            let mut got: Vec<Pair> = vec![];
+            match how {
+                0 => {
+                    let mut it = c.q_into_sorted_iter();
+                    let mut plan: Vec<bool> = vec![false; *front as usize];
+                    plan.extend(vec![true; *back as usize]);
+                    plan.extend(vec![false; n + 3]);
+                    let mut nones = 0;
+                    for b in plan {
+                        let r = catch_unwind(AssertUnwindSafe(|| if b { it.nb().flatten() } else { it.nx() }));
+                        match r {
+                            Ok(Some((i, p))) => got.push(pair_of(&i, &p)),
+                            Ok(None) => {
+                                nones += 1;
+                                if nones > 2 {
+                                    break;
+                                }
+                            }
+                            Err(_) => caught += 1,
+                        }
+                        if got.len() > n + 1 {
+                            break;
+                        }
+                    }
+                    let r = catch_unwind(AssertUnwindSafe(move || drop(it)));
+                    caught += r.is_err() as u32;
+                }
+                1 | 2 | 4 => {
+                    let r = catch_unwind(AssertUnwindSafe(move || match how {
+                        1 => c.q_into_desc_vec(),
+                        2 if Q::DOUBLE => c.q_into_asc_vec(),
+                        2 => c.q_into_desc_vec(),
+                        _ => c.q_into_vec(),
+                    }));
+                    match r {
+                        Ok(v) => {
+                            if v.len() != n && caught == 0 && !*unordered {
+                                bail!("a consuming conversion to a vector yielded {} of {n} items", v.len());
+                            }
+                        }
+                        Err(_) => caught += 1,
+                    }
+                }
+                3 => {
+                    let mut it = c.q_into_iter();
+                    for _ in 0..(n + 2) {
+                        match catch_unwind(AssertUnwindSafe(|| it.nx())) {
+                            Ok(Some((i, p))) => got.push(pair_of(&i, &p)),
+                            Ok(None) => break,
+                            Err(_) => caught += 1,
+                        }
+                    }
+                }
+                _ => {
+                    let r = catch_unwind(AssertUnwindSafe(move || {
+                        let mut o = c.q_into_other();
+                        let mut k = 0;
+                        while o.q_pop_hi().is_some() {
+                            k += 1;
+                            if k > n + 1 {
+                                break;
+                            }
+                        }
+                        k
+                    }));
+                    match r {
+                        Ok(k) => {
+                            if k != n && !*unordered {
+                                bail!("the converted queue yielded {k} of {n} elements");
+                            }
+                        }
+                        Err(_) => caught += 1,
+                    }
+                }
+            }
+            if caught == 0 && (*how == 0 || *how == 3) {
+                // fault-free: every stored element exactly once
+                let mut log = got.clone();
+                check_visit_log("a consuming iterator", &mut log, m)?;
+            }
+            Ok(Ret::Unit)
+        }
     }
 }
 
